@@ -305,14 +305,16 @@ PROPS["C26"] = dict(
 
 
 PROPS["C11"] = dict(
-    level="model_checking", jobs=1,
+    level="model_checking", jobs=3,
     claim="GETC only: TRAP x20 issued from user code with arbitrary register contents and two symbolic bytes queued, executed by the real simulator on the real OS routine (TRAP entry, LDI KBSR, BRzp, LDI KBDR, RTI - 5 instructions): R0 holds the first queued byte, exactly that byte is consumed, R1-R7, the whole PSR (condition codes, privilege, priority), the supervisor stack pointer, the frame depth and a user memory cell are as before.",
     note="OUT, PUTS, PUTSP, IN and HALT are NOT decided: after `LDR R0` the condition codes are a symbolic expression, CBMC no longer sees the privilege bit as constant and every later step costs as much as a fully symbolic one (9 steps: out of memory). The claim is deliberately narrow. Stubs: S-hub, S-poll0, S-obs, S-hash, S-swap, 20-cell associative memory preloaded from the OS image regenerated from /repo/src/os.asm on every run.",
     design_ref="DESIGN.md section 4 (C11)",
-    bounds="one execution of GETC (5 instructions), input queue of 2 symbolic bytes, no lock contention, default flags (virtual traps, non-strict); unwind 4",
+    bounds="one execution of GETC (5 instructions), input queue of 2 symbolic bytes, no lock contention, default flags (virtual traps, non-strict), caller PSR one of x8002 / x8004 / x8301 (condition code and priority are concrete per harness: a symbolic PSR would make every step as expensive as a fully symbolic one); unwind 4",
     outside="every other trap routine; empty queue (the routine spins); interrupts; strict mode; real traps",
     assumptions=["S-hub: default device wiring (decided by C32)", "S-poll0: no interrupt pending", "OS image words precomputed natively by the real parser + assembler"],
     harnesses=[H("c11_getc", module="pstep", stubbing=True, kani_args=_K_ARGS, needs_os=True, timeout=1500,
                  encodes=["Simulator::step_in x5 on TRAP_GETC", "handle_interrupt / call_interrupt (TRAP entry)", "RTI", "BufferedKeyboard::{io_read}", "read_mem MMIO mirror"],
-                 bound="GETC, 2 queued bytes, no contention")],
+                 bound="GETC, 2 queued bytes, no contention, caller PSR x8002 (cc z)")] +
+              [H(n, module="pstep", stubbing=True, kani_args=_K_ARGS, needs_os=True, timeout=1500, encodes=["as c11_getc"], bound=b)
+               for n, b in [("c11_getc_ccn", "caller PSR x8004 (cc n)"), ("c11_getc_ccp_prio", "caller PSR x8301 (cc p, priority 3)")]],
 )
